@@ -87,20 +87,25 @@ def run_one(args):
 def run_revert(mut, src_root):
     """Pre-fix twin: the tree with one `fix:` commit reverted."""
     mid = mut['id']
-    pr = subprocess.run(['git', '-C', src_root, 'show', '--format=',
-                         mut['revert'], '--', 'txdbus'],
-                        capture_output=True, text=True)
-    if pr.returncode != 0 or not pr.stdout.strip():
-        return mid, 'inapplicable', 'commit %s not found' % mut['revert']
+    commits = mut['revert'] if isinstance(mut['revert'], list) \
+        else [mut['revert']]
     tmp = tempfile.mkdtemp(prefix='txsa-mut-')
     try:
         shutil.copytree(os.path.join(src_root, 'txdbus'),
                         os.path.join(tmp, 'txdbus'))
-        ap = subprocess.run(['patch', '-R', '-p1', '-s', '-d', tmp],
-                            input=pr.stdout, capture_output=True, text=True)
-        if ap.returncode != 0:
-            return mid, 'inapplicable', 'reverse patch does not apply: ' + \
-                ap.stdout[-200:]
+        for commit in commits:        # newest first
+            pr = subprocess.run(['git', '-C', src_root, 'show', '--format=',
+                                 commit, '--', 'txdbus'],
+                                capture_output=True, text=True)
+            if pr.returncode != 0 or not pr.stdout.strip():
+                return mid, 'inapplicable', 'commit %s not found' % commit
+            ap = subprocess.run(['patch', '-R', '-p1', '-s', '-d', tmp],
+                                input=pr.stdout, capture_output=True,
+                                text=True)
+            if ap.returncode != 0:
+                return mid, 'inapplicable', \
+                    'reverse patch of %s does not apply: %s' % (
+                        commit, ap.stdout[-200:])
         ok = False
         why = []
         for pid in mut['props']:
